@@ -247,33 +247,41 @@ def parentErr (snaps : List Snap) (parent : String) : Option Err :=
   | none => some .notfound
   | some p => if p.kind = .committed then none else some .invalidArgument
 
+/-- the checks of `storage.CreateSnapshot` (parent, key) and the parent chain it returns. -/
+def createChecks (s : State) (key parent : String) : Except Err (List Snap) :=
+  match parentErr s.snaps parent with
+  | some e => .error e
+  | none =>
+    if key = "" then .error .other                 -- bolt: bucket name required
+    else if hasKey s.snaps key then .error .exists
+    else match chainOf s parent with
+      | none => .error .notfound
+      | some ps => .ok ps
+
+/-- `os.Stat(upperPath(ParentIDs[0]))` fails. -/
+def parentDirMissing (s : State) : List Snap → Bool
+  | [] => false
+  | p :: _ => !s.dirs.contains (.id p.id)
+
 /-- `createSnapshot`: steps, and on success the new record with its parent ids (nearest first). -/
 def createPlan (s : State) (orc : Oracle) (kind : Kind) (key parent : String) (labels : Labels) :
     List Step × Except Err (Snap × List Nat) :=
   let t := freshTemp s.dirs
-  let pre : List Step := [.mkTemp t, .marker "create.tempdir"]
-  let fail (e : Err) : List Step × Except Err (Snap × List Nat) := (pre ++ cleanupDir orc (.temp t), .error e)
-  match parentErr s.snaps parent with
-  | some e => fail e
-  | none =>
-    if key = "" then fail .other
-    else if hasKey s.snaps key then fail .exists
+  match createChecks s key parent with
+  | .error e => (.mkTemp t :: .marker "create.tempdir" :: cleanupDir orc (.temp t), .error e)
+  | .ok ps =>
+    if parentDirMissing s ps then
+      (.mkTemp t :: .marker "create.tempdir" :: .marker "create.txcreate" :: cleanupDir orc (.temp t),
+       .error .other)
+    -- os.Rename onto an existing (non-empty) directory fails; both td and path are reclaimed
+    else if s.dirs.contains (.id (s.seq + 1)) then
+      (.mkTemp t :: .marker "create.tempdir" :: .marker "create.txcreate" ::
+         (cleanupDir orc (.temp t) ++ cleanupDir orc (.id (s.seq + 1))), .error .other)
     else
-      match chainOf s parent with
-      | none => fail .notfound
-      | some ps =>
-        let id := s.seq + 1
-        let pre2 := pre ++ [.marker "create.txcreate"]
-        -- os.Stat(upperPath(ParentIDs[0]))
-        if (match ps with | [] => false | p :: _ => !s.dirs.contains (.id p.id)) then
-          (pre2 ++ cleanupDir orc (.temp t), .error .other)
-        -- os.Rename onto an existing (non-empty) directory fails; both td and path are reclaimed
-        else if s.dirs.contains (.id id) then
-          (pre2 ++ cleanupDir orc (.temp t) ++ cleanupDir orc (.id id), .error .other)
-        else
-          let sn : Snap := ⟨key, id, kind, parent, labels⟩
-          (pre2 ++ [.rename t id, .marker "create.renamed", .txCreate sn, .marker "create.committed"],
-           .ok (sn, ps.map (·.id)))
+      let sn : Snap := ⟨key, s.seq + 1, kind, parent, labels⟩
+      ([.mkTemp t, .marker "create.tempdir", .marker "create.txcreate", .rename t (s.seq + 1),
+        .marker "create.renamed", .txCreate sn, .marker "create.committed"],
+       .ok (sn, ps.map (·.id)))
 
 /-- the mount list built by `mounts()`. -/
 def mountSpec (sn : Snap) (pids : List Nat) : MountSpec :=
@@ -377,21 +385,20 @@ def updatePlan (s : State) (key lk lv : String) : List Step × Res :=
 def restoreSteps (allow : Bool) (orc : Oracle) : List Snap → List Step × Bool
   | [] => ([], true)
   | sn :: rest =>
-    let pre : List Step := [.mkdirId sn.id, .marker "restore.mkdir"]
     if orc.mountOk sn.id then
-      match restoreSteps allow orc rest with
-      | (r, ok) => (pre ++ .fsMount sn.id sn.labels true :: .marker "restore.mounted" :: r, ok)
+      (.mkdirId sn.id :: .marker "restore.mkdir" :: .fsMount sn.id sn.labels true ::
+         .marker "restore.mounted" :: (restoreSteps allow orc rest).1, (restoreSteps allow orc rest).2)
     else if allow then
-      match restoreSteps allow orc rest with
-      | (r, ok) => (pre ++ .fsMount sn.id sn.labels false :: r, ok)
-    else (pre ++ [.fsMount sn.id sn.labels false], false)
+      (.mkdirId sn.id :: .marker "restore.mkdir" :: .fsMount sn.id sn.labels false ::
+         (restoreSteps allow orc rest).1, (restoreSteps allow orc rest).2)
+    else ([.mkdirId sn.id, .marker "restore.mkdir", .fsMount sn.id sn.labels false], false)
 
 /-- process (re)start on the durable image: `NewSnapshotter`. -/
 def restartPlan (s : State) (orc : Oracle) (cfg : Config) : List Step × Res :=
   if cfg.noRestore then ([.crash cfg, .opened], .ok) else
-  match restoreSteps cfg.allowInvalid orc (remoteOf s.snaps) with
-  | (st, true) => (.crash cfg :: st ++ [.opened], .ok)
-  | (st, false) => (.crash cfg :: st, .err .other)
+  if (restoreSteps cfg.allowInvalid orc (remoteOf s.snaps)).2 then
+    (.crash cfg :: ((restoreSteps cfg.allowInvalid orc (remoteOf s.snaps)).1 ++ [.opened]), .ok)
+  else (.crash cfg :: (restoreSteps cfg.allowInvalid orc (remoteOf s.snaps)).1, .err .other)
 
 inductive Op where
   | prepare (key parent : String) (labels : Labels)
